@@ -22,7 +22,16 @@ what a hypothesis states: `Fits` checks, for the given `E`, that strings and key
 are fixed points of `E.norm` and that the safe prefix of a byte-cut prefix is a
 normalised byte-prefix of it (decidable per value, evaluated by the driver on
 the harness' inputs); `SetsRebuild` is the law assumed of `cty.SetVal` at the set
-nodes of the value (vacuous without sets).
+nodes of the value (vacuous without sets) — and a THEOREM for the set constructor the
+driver runs under the decidable condition `setsApart` (`roundtrip_covers_sets_partial`).
+
+Added by slice d16 (audit of C16): the `Text('f', -1)` route under hypotheses on digit lists
+(`text_route_exact_partial`, `number_roundtrip_digits`, `bound_text_exact`; `TextRouteExact` false);
+what the codec KEEPS of a refinement (`RfnKept` inside `Approx` at every unknown leaf,
+`unknown_refinement_kept_partial`); `Marshal` is total on well-shaped conforming values and a mark
+at any depth is an ERROR (`marshal_total_partial`, `marked_nested_rejected_err`); the
+`convert.Convert` path of `Marshal` (`marshalC…`, with `MarkedRejectedOnConversionPath` false: a
+recorded finding); /repo bb6ac26 (`known_length_list_refused`).
 
 The full-strength statement `RoundtripCovers` is FALSE of the code as it exists;
 it is kept as a `def`, with three counterexamples (each the replay of a recorded
@@ -283,9 +292,10 @@ def RoundtripCovers : Prop :=
 anywhere in the constraint.  Under `Fits` (and the set law): `Marshal` succeeds,
 `Unmarshal` of its output with the same constraint succeeds, the result has the
 original's type, is unknown exactly where the original is, with a refinement there
-that admits every concrete value the original's admitted (`Weaker`: the prefix is
-cut on a boundary `SafeKnownPrefix` accepts, bounds are kept), and is equal in
-every known part. -/
+that admits every concrete value the original's admitted (`Weaker`) AND is the original one as
+the wire format keeps it (`RfnKept`, inside `Approx`: nullness, numeric bounds and length bounds
+unchanged, a prefix unchanged unless longer than 256 bytes, then a byte-prefix of it — so a
+decoder that dropped refinements would not satisfy this), and is equal in every known part. -/
 theorem roundtrip_covers_partial (E : Ext) (v : Value) (t : Ty) (hfit : Fits E t v = true) (hset : SetsRebuild E v)
     (hconf : Ty.conformErrs t v.ty = 0) :
     ∃ it v', marshal E v t = .ok it ∧ Unmarshal E it t = .ok v' ∧ ApproxV v' v :=
